@@ -44,6 +44,7 @@ func schedScenarios(thorough bool) []schedScen {
 		{"pppoe-server PADT||LCP-Terminate-Request", scPPPoE(false)},
 		{"subscriber TerminateSession||TerminateSession +alloc", scSubMgr(true)},
 	}
+	s = append(s, resScenarios()...) // per-resource release primitives called by two paths at once (sched_res_test.go)
 	if thorough {
 		s = append(s,
 			schedScen{"teardown TerminateSession||HandleClientPADT +alloc", scTeardown(true)},
